@@ -129,6 +129,8 @@ type Engine struct {
 	safeNilOn        bool
 	exploreAllPanics bool
 	handled          bool
+	capturedNames    map[string]bool // fn|local: locals captured by some closure of fn
+	spawningFns      map[string]bool // functions that start goroutines or register AfterFunc hooks
 	sitesHit         map[string]bool
 	entered          map[string]bool
 }
@@ -402,6 +404,7 @@ type State struct {
 	Done      bool
 	ActionOld map[string]map[string]string
 	Entry     map[string]Val
+	Shared    map[*Cell]string // cells captured by a closure that now runs concurrently: "r" (it reads) or "w" (it writes)
 }
 
 func (s *State) clone() *State {
@@ -447,6 +450,10 @@ func (s *State) clone() *State {
 	n.Facts = make(map[string]string, len(s.Facts))
 	for k, v := range s.Facts {
 		n.Facts[k] = v
+	}
+	n.Shared = make(map[*Cell]string, len(s.Shared))
+	for k, v := range s.Shared {
+		n.Shared[k] = v
 	}
 	n.Counters = make(map[string]T, len(s.Counters))
 	for k, v := range s.Counters {
